@@ -240,6 +240,14 @@ func c42codes() (w, d, m, mnew []byte) {
 	return
 }
 
+// the code of a contract that only ever exists inside pre-executions
+func c42ghostCode() []byte { return append(c42write("ghost"), 0x66) }
+
+func c42ghostAddr() []byte {
+	a := common.AddressFromVmCode(c42ghostCode())
+	return a[:]
+}
+
 func c42evmTx(key int, nonce uint64, to *ethcom.Address, value int64, data []byte) *types.Transaction {
 	k, _ := vEthKey(key)
 	return vEvmTx(k, nonce, to, big.NewInt(value), 300000, c42price, data)
@@ -301,6 +309,8 @@ func c42build(logf func(string, ...interface{})) *c42fix {
 		vTransferTx(nutils.OntContractAddress, a0, a1.Address, 5, 2500, 20000, 100),
 		c42invokeTx(f.w, 0, 2500, 101),
 		c42evmTx(1, 0, &f.evmC, 0, nil),
+		// probe: APPCALL of the never-deployed ghost contract (fails: the contract does not exist)
+		vSignTx(vNeoTx(append([]byte{0x67}, c42ghostAddr()...), 0, 60000000, 102), a0),
 	}
 	return f
 }
@@ -349,6 +359,17 @@ func c42menu(f *c42fix) []*c42item {
 	add("neovm-storage-delete", "neovm", c42invokeTx(f.w, 1, 0, 211))
 	add("neovm-destroy", "neovm", c42invokeTx(f.d, 1, 0, 212))
 	add("neovm-migrate", "neovm", c42invokeTx(f.m, 1, 0, 213))
+	// a script that creates a contract (Contract.Create) and calls it at once; the contract is never deployed on
+	// chain, and every follow-up block probes it with an APPCALL (c42ghost) that must go on failing
+	{
+		gc := c42ghostCode()
+		a := &c42asm{}
+		a.push([]byte("desc")).push([]byte("e@x")).push([]byte("author")).push([]byte("1")).push([]byte("ghost")).pushInt(1).push(gc)
+		a.syscall(neovm.CONTRACT_CREATE_NAME).op(0x75 /* DROP */)
+		ga := common.AddressFromVmCode(gc)
+		a.op(0x67).op(ga[:]...)
+		add("neovm-create-and-call", "neovm", vSignTx(vNeoTx(a.b, 0, 60000000, 215), a0)).follow = false
+	}
 	add("neovm-fault", "neovm", vSignTx(vNeoTx([]byte{0x51, 0x00, 0x96 /* DIV by zero */}, 0, 20000, 214), a0)).errs = true
 	add("deploy-new", "deploy", c42deployTx(append(c42write("fresh"), 0x66), "fresh", 220))
 	add("deploy-existing", "deploy", c42deployTx(wc, "w", 221))
@@ -680,7 +701,7 @@ func c42makeTwin(f *c42fix, it *c42item) *c42twin {
 func TestVerif_C42(t *testing.T) {
 	r := vh.Start(t, "C42", "preexec")
 	defer r.Finish()
-	r.Rule("cases = transaction of the menu {native transfer/approve (valid, foreign witness), NeoVM invoke that writes / deletes storage / destroys / migrates / faults, deploy (new, existing), EIP-155 transfer / create / SSTORE+LOG call / reverting call / wrong nonce, already committed NeoVM and EVM transactions} x read-only entry point x issued 1..3 times in a row on one ledger; evaluations = pre-execution calls, each followed by the full comparison; outcome class = tx kind : entry point : result")
+	r.Rule("cases = transaction of the menu {native transfer/approve (valid, foreign witness), NeoVM invoke that writes / deletes storage / destroys / migrates / faults / creates a contract and calls it (every follow-up block probes that never-deployed contract), deploy (new, existing), EIP-155 transfer / create / SSTORE+LOG call / reverting call / wrong nonce, already committed NeoVM and EVM transactions} x read-only entry point x issued 1..3 times in a row on one ledger; evaluations = pre-execution calls, each followed by the full comparison; outcome class = tx kind : entry point : result")
 	r.Bound("ledger of 3 blocks (3 NeoVM contracts and 1 EVM contract with storage, funded native and EVM accounts); 18 transactions; 10 entry-point forms (6 general, 4 EIP-155 only); repetitions 1..3; then {no restart, restart} (quick tier: alternating, thorough: both) and one follow-up block per case compared with a twin ledger; plus one ledger that sees every call of the run in sequence; thorough tier additionally every ordered pair (a,b) of menu transactions: a, b, then the batch [a,b] on one ledger")
 	r.Assume("block time / context passed by the RPC layer is irrelevant to persistence; WASM contracts are outside the menu (the JIT is a stub)")
 
@@ -709,6 +730,11 @@ func TestVerif_C42(t *testing.T) {
 			twins[k] = c42makeTwin(f, it)
 		}
 		return twins[k]
+	}
+	// all twins are committed BEFORE the first pre-execution of this process: whatever a pre-execution leaves
+	// behind in process-wide state (caches, tables) must not be able to reach the reference ledgers
+	for _, it := range menu {
+		twinOf(it)
 	}
 
 	// observe compares the ledger with its state before the call
